@@ -3,6 +3,7 @@ from .. import common as C, structs as S, clientgen as G
 from .c09 import baseline, HISTORIES
 
 LEAN_MODULES = ["ZvtVerif.Properties.C10"]
+TRANSLATED = {"structs", "sequences", "errors"}      # translated tables this property consumes (a translator problem elsewhere does not break its tie)
 ASSUMPTIONS = ["time is tokio's paused clock (virtual seconds); a one-virtual-day watchdog turns a real hang into the outcome `hang`",
                "what the Lean model cannot exhibit: the executor (timer wheel, wakers) — exercised by the harness"]
 
